@@ -290,3 +290,123 @@ def loop_subst(fn, P, loop):
         if st.get("k") == "decl" and st.get("n") and is_expr(st.get("i")) and (st.get("ty") or "").startswith("const ") and not writes_to_local(fn, st["n"]):
             subst[st["n"]] = st["i"]
     return subst
+
+
+def check_accumulator(ctx, fn, P, name, init_rx, adds, oid=None, subst=None, scope=None, init_text="0", own=False):
+    """The local `name` is a sum: declared with an initialiser whose canonical text fullmatches init_rx and modified only by the listed
+    `name += term` statements.  adds: [(term_rx, cond_spec, atoms, loop_rx or None, text)] - for each, exactly one `+=` whose canonical
+    term fullmatches term_rx, whose dominating condition (inside `scope` if given, a loop statement) is *equivalent* to cond_spec, and
+    which sits in a break-free loop whose range key fullmatches loop_rx (innermost) / in no loop beyond `scope`."""
+    oid = oid or "%s/sum:%s" % (fn.q, name)
+    subst = naming(fn, P) if subst is None else subst
+    d = decl_of(fn, name)
+    k0 = F.key(F.expand(d["i"], subst)) if d is not None and is_expr(d.get("i")) else None
+    ok0 = k0 is not None and re.fullmatch(init_rx, k0) is not None
+    ctx.ob("%s/init" % oid, "SUM", "%s of %s starts as %s" % (name, fn.q, init_text), ok0, fn.where, {"init": k0})
+    ws = sites(fn, lambda e: e[0] in ("b", "u") and ((e[0] == "b" and e[1] in ASSIGN_OPS) or (e[0] == "u" and e[1] in ("++", "--", "post++", "post--", "&")))
+               and match(["local", name], e[2]), P)
+    used = set()
+    for term_rx, spec, atoms, loop_rx, text in adds:
+        hit = None
+        for i, s in enumerate(ws):
+            if i in used or s.expr[0] != "b" or s.expr[1] != "+=":
+                continue
+            if re.fullmatch(term_rx, F.key(F.expand(s.expr[3], subst))):
+                hit = i
+                break
+        if hit is None:
+            ctx.ob("%s/add:%s" % (oid, text), "SUM", "%s adds %s" % (fn.q, text), False, fn.where, {"writes": [F.key(F.expand(s.expr, subst)) for s in ws]})
+            continue
+        used.add(hit)
+        s = ws[hit]
+        inner = [lp for lp in s.loops if lp is not scope]
+        if scope is not None and scope not in s.loops:
+            inner = None
+        if loop_rx is None:
+            okl = inner == []
+        else:
+            okl = bool(inner) and len(inner) == 1 and re.fullmatch(loop_rx, loop_range_key(inner[0], subst)) is not None and not has_break(inner[0].get("b")) \
+                and _counted_ok(fn, inner[0], subst)
+        ctx.ob("%s/add-loop:%s" % (oid, text), "SUM", "%s adds %s %s" % (fn.q, text, "once (outside any inner loop)" if loop_rx is None else "for every element of a complete loop " + loop_rx),
+               bool(okl), s.where, {"loops": [loop_range_key(lp, subst) for lp in s.loops]})
+        code = own_formula(s, subst) if own else (in_loop_formula(s, scope, subst) if scope is not None else s.formula(subst))
+        check_equiv(ctx, code, spec, atoms, "%s/add-cond:%s" % (oid, text), "SUM", "%s adds %s exactly when (%s)" % (fn.q, text, spec), s.where)
+    extra = [s for i, s in enumerate(ws) if i not in used]
+    ctx.ob("%s/no-other-write" % oid, "SUM", "%s is modified by nothing but the listed additions" % name, not extra, fn.where,
+           {"other_writes": [(s.line, show(s.expr)) for s in extra]} if extra else None)
+    return ws
+
+
+def _counted_ok(fn, loop, subst):
+    """A counted for-loop must start at its stated initial value and step by one over an unmodified index; foreach loops are complete by construction."""
+    if loop.get("k") != "for":
+        return loop.get("k") == "foreach"
+    var, start, cond, inc = for_shape(loop, subst)
+    return var is not None and inc in ("%s++" % var, "++%s" % var) and not [w for w in writes_to_local(fn, var) if w[1] not in ("post++", "++")]
+
+
+# ---------------------------------------------------------------------------------------------- operation sequences on a mutable local
+READ_METHODS = {"GetCompact", "getdouble", "GetHex", "ToString", "bits", "GetLow64", "size", "begin", "end", "data", "has_value", "value", "operator bool",
+                "operator*", "operator->", "IsNull", "empty"}
+
+
+class Op:
+    def __init__(self, site, kind, args, guard):
+        self.site, self.kind, self.args, self.guard, self.line = site, kind, args, guard, site.line
+
+    def __repr__(self):
+        return "L%s %s(%s) if %s" % (self.line, self.kind, ", ".join(self.args), F.fshow(self.guard))
+
+
+def ops_on(fn, P, name, subst):
+    """Every operation that may modify local `name`, in source order: assignments/compound assignments (built-in or overloaded), ++/--/&,
+    and member calls other than known pure readers.  Each with canonical argument texts and its enclosing branch conditions."""
+    out = []
+    for s in all_sites(fn, P):
+        e = s.expr
+        if e is None:
+            continue
+        if e[0] == "b" and e[1] in ASSIGN_OPS and match(["local", name], e[2]):
+            kind, args = e[1], [e[3]]
+        elif e[0] == "u" and e[1] in ("++", "--", "post++", "post--", "&") and match(["local", name], e[2]):
+            kind, args = e[1], []
+        elif e[0] in ("mcall", "vcall") and match(["local", name], e[2]) and e[1].rsplit("::", 1)[-1] not in READ_METHODS:
+            kind, args = e[1].rsplit("::", 1)[-1], [a for a in call_args(e) if not (is_expr(a) and a[0] == "defarg")]
+        else:
+            continue
+        out.append(Op(s, kind, [F.key(F.expand(a, subst)) for a in args], own_formula(s, subst)))
+    out.sort(key=lambda o: o.line or 0)
+    return out
+
+
+def check_ops(ctx, fn, ops, groups, atoms, oid, text):
+    """ops must consist of the expected groups in order; inside a group the alternatives may come in any order.
+    groups: [[(kind, [arg regex...], guard spec text), ...], ...]"""
+    flat = sum(len(g) for g in groups)
+    detail = {"operations": [repr(o) for o in ops]}
+    if len(ops) != flat:
+        ctx.ob(oid, "SEQUENCE", text, False, fn.where, detail)
+        return False
+    pos = 0
+    ok = True
+    for g in groups:
+        chunk = ops[pos:pos + len(g)]
+        pos += len(g)
+        left = list(chunk)
+        for kind, arg_rx, spec in g:
+            hit = None
+            for o in left:
+                if o.kind != kind or len(o.args) != len(arg_rx) or not all(re.fullmatch(rx, a) for rx, a in zip(arg_rx, o.args)):
+                    continue
+                f, mapping, un = bound(drop_done(o.guard), atoms)
+                if un or not F.equivalent(f, F.parse(spec)):
+                    continue
+                hit = o
+                break
+            if hit is None:
+                ok = False
+                detail.setdefault("unmatched_expected", []).append([kind, arg_rx, spec])
+            else:
+                left.remove(hit)
+    ctx.ob(oid, "SEQUENCE", text, ok, "%s:%s" % (fn.file, ops[0].line) if ops else fn.where, None if ok else detail)
+    return ok
